@@ -126,22 +126,30 @@ Definition al_map {A} (f : A -> A) (l : list (N * A)) : list (N * A) :=
 
 (* ---------------------------------------------------------------- NodeRrsets *)
 
-Definition rrsets : Type := list (N * list (entry N)).
+(* a SharedRrset of some type: its TTL and its record data, one number per record
+   (an SOA record is its serial, a CNAME / NS record its target, ...); the RRset
+   without records is the empty RRset *)
+Definition rrv : Type := (N * list N)%type.
+Definition rrv_is_empty (x : rrv) : bool := match snd x with [] => true | _ => false end.
+(* Rrset::first(): the first record as a SharedRr (TTL, data) *)
+Definition rrv_first (x : rrv) : option (N * N) := match snd x with d :: _ => Some (fst x, d) | [] => None end.
 
-Definition cell (t : N) (rs : rrsets) : list (entry N) :=
+Definition rrsets : Type := list (N * list (entry rrv)).
+
+Definition cell (t : N) (rs : rrsets) : list (entry rrv) :=
   match al_get t rs with Some d => d | None => [] end.
 
-Definition rs_get (rs : rrsets) (t v : N) : option N := v_get (cell t rs) v.
+Definition rs_get (rs : rrsets) (t v : N) : option rrv := v_get (cell t rs) v.
 
-Definition rs_at (t : N) (f : list (entry N) -> list (entry N)) (rs : rrsets) : rrsets :=
+Definition rs_at (t : N) (f : list (entry rrv) -> list (entry rrv)) (rs : rrsets) : rrsets :=
   al_upd t f [] rs.
 
-Definition rs_all (f : list (entry N) -> list (entry N)) (rs : rrsets) : rrsets := al_map f rs.
+Definition rs_all (f : list (entry rrv) -> list (entry rrv)) (rs : rrsets) : rrsets := al_map f rs.
 
 Definition rs_remove_rtype (rs : rrsets) (t v : N) : rrsets := rs_at t (fun d => v_remove d v) rs.
 
-Definition rs_update (rs : rrsets) (t rr v : N) : rrsets :=
-  if (rr =? 0) && update_empty_rrset_is_remove then rs_remove_rtype rs t v
+Definition rs_update (rs : rrsets) (t : N) (rr : rrv) (v : N) : rrsets :=
+  if rrv_is_empty rr && update_empty_rrset_is_remove then rs_remove_rtype rs t v
   else rs_at t (fun d => v_update d v rr) rs.
 
 Definition rs_rollback (rs : rrsets) (v : N) : rrsets := rs_all (fun d => v_rollback d v) rs.
@@ -154,7 +162,7 @@ Definition rs_is_empty (rs : rrsets) (v : N) : bool :=
 
 (* Special::{Cut, Cname, NxDomain}; a cut is its NS RRset, an optional DS RRset
    and an optional glue record (an A record owned by the cut name) *)
-Inductive special := SCut (ns : N) (ds glue : option N) | SCname (id : N) | SNx.
+Inductive special := SCut (ns : rrv) (ds glue : option rrv) | SCname (c : rrv) | SNx.
 
 Inductive znode := mknode (rs : rrsets) (sp : list (entry (option special))) (ch : list (N * znode)).
 
@@ -184,10 +192,10 @@ Definition check_nx (n : znode) (v : N) : znode :=
   else n.
 
 Definition n_make_regular (n : znode) (v : N) : znode := check_nx (n_update_special n v None) v.
-Definition n_make_cname (n : znode) (id v : N) : znode := n_update_special n v (Some (SCname id)).
-Definition n_make_cut (n : znode) (ns : N) (ds glue : option N) (v : N) : znode :=
+Definition n_make_cname (n : znode) (id : rrv) (v : N) : znode := n_update_special n v (Some (SCname id)).
+Definition n_make_cut (n : znode) (ns : rrv) (ds glue : option rrv) (v : N) : znode :=
   n_update_special n v (Some (SCut ns ds glue)).
-Definition n_update_rrset (n : znode) (t rr v : N) : znode :=
+Definition n_update_rrset (n : znode) (t : N) (rr : rrv) (v : N) : znode :=
   check_nx (set_rrsets n (rs_update (n_rrsets n) t rr v)) v.
 Definition n_remove_rrset (n : znode) (t v : N) : znode :=
   check_nx (set_rrsets n (rs_remove_rtype (n_rrsets n) t v)) v.
@@ -280,13 +288,13 @@ Inductive event :=
 | ERelease (r : N)                 (* drop reader r *)
 | EWAcquire                        (* zone.write().await *)
 | EWOpen                           (* writer.open(false) -> root node *)
-| EUpdate (name : list N) (t rr : N)   (* root.update_child(..)*.update_rrset(rr) *)
+| EUpdate (name : list N) (t : N) (rr : rrv)   (* root.update_child(..)*.update_rrset(rr) *)
 | ERemove (name : list N) (t : N)      (* root.update_child(..)*.remove_rrset(t) *)
 | ETouch (name : list N)               (* root.update_child(..)* only *)
 | ERemoveAll                       (* root.remove_all() *)
 | ERemoveAllAt (name : list N)         (* root.update_child(..)*.remove_all() *)
-| ECname (name : list N) (id : N)      (* root.update_child(..)*.make_cname(id) *)
-| ECut (name : list N) (ns : N) (ds glue : option N)   (* ...make_zone_cut *)
+| ECname (name : list N) (id : rrv)    (* root.update_child(..)*.make_cname(id) *)
+| ECut (name : list N) (ns : rrv) (ds glue : option rrv)   (* ...make_zone_cut *)
 | ERegular (name : list N)             (* root.update_child(..)*.make_regular() *)
 | ECommit                          (* writer.commit(false); the root handle is kept aside *)
 | ECommitBump                      (* writer.commit(true): bump the SOA serial unless the writer set a new SOA *)
@@ -330,16 +338,19 @@ Definition publish (s : zstate) (w : writer) : zstate :=
       (if w_open w then Some (w_new w) else z_handle s).
 
 (* commit(true): if the published version has a SOA and the new version has none
-   or the same one, a SOA with serial + 1 (Serial::add, i.e. C17's wrapping
-   serial_add) is stored at the new version.  An SOA RRset is identified with its
-   serial; the bumped RRset is never empty, so it is stored by Versioned::update
-   directly: a stored value 0 is the SOA with serial 0, whereas an *update* with
-   RRset 0 (the empty RRset) removes. *)
+   or the same first record (TTL and data: get_soa is Rrset::first), an RRset of
+   one SOA record with the old TTL and serial + 1 (Serial::add, i.e. C17's wrapping
+   serial_add) is stored at the new version.  An SOA record is identified with its
+   serial (the other fields are copied). *)
+Definition get_soa (s : zstate) (v : N) : option (N * N) :=
+  match rs_get (z_apex s) 6 v with Some x => rrv_first x | None => None end.
+Definition soa_eqb (a b : N * N) : bool := (fst a =? fst b) && (snd a =? snd b).
+
 Definition bump_soa (s : zstate) (w : writer) : zstate :=
-  match rs_get (z_apex s) 6 (z_cur s) with
+  match get_soa s (z_cur s) with
   | Some old =>
-      if (match rs_get (z_apex s) 6 (w_new w) with None => true | Some new => new =? old end)
-      then set_apex s (rs_at 6 (fun d => v_update d (w_new w) (ver_next old)) (z_apex s))
+      if (match get_soa s (w_new w) with None => true | Some new => soa_eqb new old end)
+      then set_apex s (rs_at 6 (fun d => v_update d (w_new w) (fst old, [ver_next (snd old)])) (z_apex s))
       else s
   | None => s
   end.
@@ -406,20 +417,20 @@ Definition run (s : zstate) (evs : list event) : zstate := fold_left step evs s.
 (* ---------------------------------------------------------------- ReadZone *)
 
 Inductive answer :=
-| ANx (soa : option N)             (* NXDOMAIN, SOA of the reader's version in authority *)
-| ANoData (soa : option N)         (* NOERROR, empty answer *)
-| AData (rr : N)
+| ANx (soa : option (N * N))       (* NXDOMAIN, SOA record (TTL, serial) of the reader's version in authority *)
+| ANoData (soa : option (N * N))   (* NOERROR, empty answer *)
+| AData (rr : rrv)
 | AAny                             (* ANY: some RRset of the version *)
-| ACname (id : N)
-| ARefer (ns : N) (ds glue : option N).   (* referral at a zone cut *)
+| ACname (c : rrv)
+| ARefer (ns : rrv) (ds glue : option rrv).   (* referral at a zone cut *)
 
 (* query_rrsets *)
-Definition rrsets_answer (rs : rrsets) (v t : N) (soa : option N) : answer :=
+Definition rrsets_answer (rs : rrsets) (v t : N) (soa : option (N * N)) : answer :=
   if t =? 255 then (if rs_is_empty rs v then ANoData soa else AAny)
   else match rs_get rs t v with Some rr => AData rr | None => ANoData soa end.
 
 (* query_node_here_but_not_below: the NxDomain marker is treated like None *)
-Definition node_here (n : znode) (v t : N) (soa : option N) : answer :=
+Definition node_here (n : znode) (v t : N) (soa : option (N * N)) : answer :=
   match n_with_special n v with
   | Some (SCut ns ds glue) =>
       if t =? 43 then match ds with Some d => AData d | None => ANoData soa end
@@ -437,7 +448,7 @@ Definition child_at (ns : list (N * znode)) (name v : N) : option znode :=
   end.
 
 (* query_children / query_node / query_node_here_and_below along the name *)
-Fixpoint q_children (ns : list (N * znode)) (p : list N) (v t : N) (soa : option N) : answer :=
+Fixpoint q_children (ns : list (N * znode)) (p : list N) (v t : N) (soa : option (N * N)) : answer :=
   match p with
   | [] => ANx soa
   | l :: rest =>
@@ -458,21 +469,21 @@ Fixpoint q_children (ns : list (N * znode)) (p : list N) (v t : N) (soa : option
   end.
 
 Definition query (s : zstate) (v : N) (name : list N) (t : N) : answer :=
-  let soa := rs_get (z_apex s) 6 v in
+  let soa := match rs_get (z_apex s) 6 v with Some x => rrv_first x | None => None end in
   match name with
   | [] => rrsets_answer (z_apex s) v t soa
   | _ => q_children (z_nodes s) name v t soa
   end.
 
-Definition walk_rrsets {A} (name : A) (rs : rrsets) (v : N) : list (A * N * N) :=
+Definition walk_rrsets {A} (name : A) (rs : rrsets) (v : N) : list (A * N * rrv) :=
   flat_map (fun p => match v_get (snd p) v with Some rr => [(name, fst p, rr)] | None => [] end) rs.
 
-Definition opt_item {A} (name : A) (t : N) (x : option N) : list (A * N * N) :=
+Definition opt_item {A} (name : A) (t : N) (x : option rrv) : list (A * N * rrv) :=
   match x with Some id => [(name, t, id)] | None => [] end.
 
 (* walk of a node: its RRsets, then by special: a cut emits NS, DS, glue and ends
    the descent; a CNAME is emitted and the children are walked; otherwise the children *)
-Fixpoint walk_node (path : list N) (n : znode) (v : N) : list (list N * N * N) :=
+Fixpoint walk_node (path : list N) (n : znode) (v : N) : list (list N * N * rrv) :=
   match n with
   | mknode rs sp ch =>
       walk_rrsets path rs v ++
@@ -483,7 +494,7 @@ Fixpoint walk_node (path : list N) (n : znode) (v : N) : list (list N * N * N) :
       end
   end.
 
-Definition walk (s : zstate) (v : N) : list (list N * N * N) :=
+Definition walk (s : zstate) (v : N) : list (list N * N * rrv) :=
   walk_rrsets [] (z_apex s) v ++ flat_map (fun p => walk_node [fst p] (snd p) v) (z_nodes s).
 
 (* the version numbers of every entry stored anywhere in the tree (RRsets and
@@ -498,8 +509,8 @@ Definition z_versions (s : zstate) : list N :=
 
 (* ---------------------------------------------------------------- ZoneBuilder *)
 
-Inductive init := IRrset (name : list N) (t rr : N) | ICname (name : list N) (id : N)
-                | ICut (name : list N) (ns : N) (ds glue : option N).
+Inductive init := IRrset (name : list N) (t : N) (rr : rrv) | ICname (name : list N) (id : rrv)
+                | ICut (name : list N) (ns : rrv) (ds glue : option rrv).
 
 Definition build_one (s : zstate) (i : init) : zstate :=
   match i with
@@ -525,7 +536,7 @@ Definition build (is : list init) : zstate := fold_left build_one is (mkz 0 [] [
 (* ---------------------------------------------------------------- trace runner (driver) *)
 
 Inductive obs :=
-| OAnswer (a : answer) | OWalk (l : list (list N * N * N)) | ONoReader
+| OAnswer (a : answer) | OWalk (l : list (list N * N * rrv)) | ONoReader
 | OGranted | OPending
 | OStaleDone | OStaleRejected | OStaleNoHandle
 | ODump (vs : list N).
